@@ -524,7 +524,7 @@ pub struct C23 {
 
 fn world_knobs(tier: Tier) -> WorldKnobs {
     WorldKnobs {
-        n_schemas: if tier == Tier::Quick { 22 } else { 120 },
+        n_schemas: if tier == Tier::Quick { 22 } else { 50 },
         n_datasets: 2,
         n_queries: 10,
         query: QueryKnobs::clean(),
